@@ -1,7 +1,7 @@
 SPECIFICATION Spec
 CONSTANTS
   N = 2
-  ScratchMax = 2
+  ScratchMax = 1
   Overwrite = FALSE
   ProbeAll = FALSE
   Fams = {"pad", "color"}
